@@ -432,6 +432,8 @@ FIXED = [
     "\u00e9t\u00e9 = \u540d\u524d.\u00e9t\u00e9\n", "x = [\n  1, # one (\n  2, # two ]\n]\n", "x = 1 # c \\\ny = 2\n", "if a and \\\n   b:\n    pass\n",
     "s = \"\"\"a\\\"\"\" \"\"\"\n", "s = 'a\\\\'\nt = 1\n", "x=\"\"\"a\"\"\"\"b\"\n", "(\n", ")\nx\n", "x = ')'\n", "'''\n", "f(\n'''\n)'''\n)\n", "x = 1 ;\n",
     "\x0cx = 1\n", "x = 1\n\x0c\ny = 2\n", "x = a . b\n", "x = a.\\\n  b\n", "lambda: (yield)\n",
+    # a keyword right after a dot (rope 2b4039e: _follows_dot): valid shapes first, then the invalid ones it was made for
+    "from . import a\n", "from .. import b\n", "y = 1. if c else 2\n", "z = 2. or x\n", "s.is\n", "a.in.b\n", "x = s.is_x + t.import_y\n",
     "bfr\"x\"", "rbu'y' ", "bBfF\"z\"\n", "bbbbb\"x\"", "fRb'''a'''", "xRbU''", "uuuu'a' rrrrr'b'", "fb\"{x}\"\n", "Fx = rbf'{'\n",
 ]
 
